@@ -242,3 +242,17 @@ MUTANTS += [
       old="                and 'o' in remj[0].attempts_by_height[-1]):", new="                and remj[0].attempts_by_height[-1].endswith('o') and remj[0].dismissed and self.actions[-1][1]==remj[0].bib):"),
  dict(id='c08-trials-drop-retired', props=['C08'], file=HJ, old="    action_letter = dict(cleared='o', failed='x', passed='-', retired='r')", new="    action_letter = dict(cleared='o', failed='x', passed='-', retired='x')"),
 ]
+
+MUTANTS += [
+ # ---- C06 -----------------------------------------------------------------------
+ dict(id='c06-no-maxdp', props=['C06'], file=U, old="        f = f[:maxDP]\n", new=""),
+ dict(id='c06-carry-gt60', props=['C06'], file=U, old="            if secs==60:", new="            if secs>60:"),
+ dict(id='c06-no-lstrip', props=['C06'], file=U, old="        t = t.lstrip('0')\n", new=""),
+ dict(id='c06-secs-d', props=['C06'], file=U, old='        t = "%d:%02d" % (mins, secs)', new='        t = "%d:%d" % (mins, secs)'),
+ dict(id='c06-parse-colon-only', props=['C06'], file=U, old="    for sep in ':;':\n        if sep not in t:", new="    for sep in ':':\n        if sep not in t:"),
+ dict(id='c06-sec-mul-after', props=['C06'], file=U,
+      old="            sec *= 60\n\n            try:\n                sec += str2num(s)\n            except ValueError:\n                raise ValueError('cannot parse seconds from %s' % repr(t))",
+      new="            try:\n                sec += str2num(s)\n            except ValueError:\n                raise ValueError('cannot parse seconds from %s' % repr(t))\n            sec *= 60"),
+ dict(id='c06-unfix-repr', props=['C06'], file=U, old="round_up_str_num('%.9f' % frac,prec)", new="round_up_str_num(repr(frac),prec)"),
+ dict(id='c06-hours-carry', props=['C06'], file=U, old="                if mins==60:\n                    mins = 0\n                    hours += 1", new="                if mins==60:\n                    mins = 0"),
+]
